@@ -78,6 +78,7 @@ def cases(tier, seed):
             out.append({"kind": "natural", "solver": "Newton", "how": "nan_load", "continue": cont, "system": "static", "rep": r})
         for solver in ("ScipyIVP", "ScipyDAE"):
             out.append({"kind": "unsupported_contacts", "solver": solver, "rep": r})
+            out.append({"kind": "unsupported_friction", "solver": solver, "rep": r})
             out.append({"kind": "nan_rhs", "solver": solver, "rep": r})
     return out
 
@@ -100,6 +101,55 @@ def _smooth(rng):
     S.add(body, joint, spring, Force(np.array([0, 0, -9.81 * m]), body, name="grav"))
     S.assemble()
     return S
+
+
+class _BlockOnBelt:
+    """the contribution of examples/friction_belt: a block on a belt, dry friction with a CONSTANT force reservoir (a friction
+    law that does not depend on any normal contact: nla_F > 0, nla_N == 0)"""
+
+    def __init__(self, rng):
+        from cardillo.math.prox import Sphere
+        self.mass, self.k, self.u_b = float(rng.uniform(0.5, 2)), float(rng.uniform(0.5, 3)), float(rng.uniform(1, 3))
+        self.nq = self.nu = 1
+        self.q0, self.u0 = np.array([float(rng.normal() * 0.2)]), np.array([float(rng.normal() * 0.2)])
+        self.reservoir = float(rng.uniform(2, 6))
+        self.friction_laws = [([], [0], Sphere(self.reservoir))]
+        self.nla_F = 1
+        self.e_F = np.zeros(1)
+        self.name = "block_on_belt"
+
+    def q_dot(self, t, q, u):
+        return u
+
+    def q_dot_u(self, t, q):
+        return np.eye(1)
+
+    def M(self, t, q):
+        return np.diag([self.mass])
+
+    def h(self, t, q, u):
+        return np.array([-self.k * q[0]])
+
+    def h_q(self, t, q, u):
+        return np.array([[-self.k]])
+
+    def h_u(self, t, q, u):
+        return np.zeros((1, 1))
+
+    def gamma_F(self, t, q, u):
+        return np.array([u[0] - self.u_b])
+
+    def gamma_F_u(self, t, q):
+        return np.ones((1, 1))
+
+    def gamma_F_dot(self, t, q, u, u_dot):
+        return np.array([u_dot[0]])
+
+    def W_F(self, t, q):
+        return np.ones((1, 1))
+
+    def Wla_F_q(self, t, q, la_F):
+        return np.zeros((1, 1))
 
 
 def _contact(rng, resting=True):
@@ -358,6 +408,27 @@ def run_case(spec, ctx):
             ctx.violation(f"{spec['solver']}", "solver that cannot treat unilateral contacts ran on a contact system without warning or error",
                           {**det, "warnings": msgs[:3], "final_gap": gN})
         ctx.cls(f"unsupported:{spec['solver']}:{'raised' if err else 'warned'}")
+        consumed = True
+    elif kind == "unsupported_friction":
+        from cardillo import System
+        with gen.quiet():
+            S = System()
+            S.add(_BlockOnBelt(rng))
+            S.assemble()
+        buf = io.StringIO()
+        with warnings.catch_warnings(record=True) as wlist, contextlib.redirect_stdout(buf), contextlib.redirect_stderr(buf):
+            warnings.simplefilter("always")
+            err = None
+            try:
+                sol = getattr(sv, spec["solver"])(S, 0.3, DT).solve()
+            except Exception as e:
+                err = e
+        ctx.mon("outcome")
+        msgs = [str(w.message) for w in wlist]
+        if err is None and not any(("friction" in m.lower() or "contact" in m.lower()) for m in msgs):
+            ctx.violation(f"{spec['solver']}", "solver that cannot treat friction ran on a system with a friction law (constant force reservoir, no normal contact) without warning or error",
+                          {**det, "warnings": msgs[:3], "nla_F": S.nla_F, "nla_N": S.nla_N})
+        ctx.cls(f"unsupported_friction:{spec['solver']}:{'raised' if err else 'warned'}")
         consumed = True
     else:  # nan_rhs: the right-hand side becomes NaN from a given time on
         with gen.quiet():
